@@ -2,11 +2,10 @@
   Nutree.Lemmas.AddRemove — "remove undoes add": appending a fresh leaf and removing it again gives back the child
   lists and both registries exactly as they were.
 
-  * `modT_congr`, `modT_id'`: edits that agree on the children of the edited node are the same edit.
+  * `modT_congr_ar`, `modT_id_ar`: edits that agree on the children of the edited node are the same edit.
   * `delEntry_addEntry`: the `byData` update of `unregister` undoes the one of `register` for a node that was not listed.
   * `removeOne_appended_leaf`: the law, for the state that `addData` produces.
 -/
-import Nutree.Lemmas.SerialAdd
 import Nutree.Lemmas.WFAdd
 import Nutree.Lemmas.EffectInsert
 import Nutree.Properties.C01
@@ -14,7 +13,7 @@ namespace Nutree
 open T C10
 
 /-- two edits of node `p` that agree on the children of every node with identity `p` are the same. -/
-theorem modT_congr (p : NodeId) (g1 g2 : List T → List T) (r : T)
+theorem modT_congr_ar (p : NodeId) (g1 g2 : List T → List T) (r : T)
     (h : ∀ x ∈ flat r, x.id = p → g1 x.kids = g2 x.kids) : modT p g1 r = modT p g2 r := by
   induction r using T.ind with
   | node i ks ih =>
@@ -29,7 +28,18 @@ theorem modT_congr (p : NodeId) (g1 g2 : List T → List T) (r : T)
       intro x hx hxp
       exact h x (by rw [flat_node]; exact List.mem_cons_of_mem _ (mem_flatL.2 ⟨c, hc, hx⟩)) hxp
 
-theorem modT_id' (p : NodeId) (r : T) : modT p (fun l => l) r = r := by
+/-- two edits of the same node compose (own copy: the lemma files of other properties have theirs). -/
+theorem modT_modT_same_ar (p : NodeId) (g1 g2 : List T → List T) (r : T) :
+    modT p g2 (modT p g1 r) = modT p (fun l => g2 (g1 l)) r := by
+  induction r using T.ind with
+  | node i ks ih =>
+    by_cases hid : i.id = p
+    · rw [modT_node, if_pos hid, modT_node, if_pos hid, modT_node, if_pos hid]
+    · rw [modT_node, if_neg hid, modT_node, if_neg hid, modT_node, if_neg hid, List.map_map]
+      congr 1
+      exact List.map_congr_left (fun c hc => ih c hc)
+
+theorem modT_id_ar (p : NodeId) (r : T) : modT p (fun l => l) r = r := by
   induction r using T.ind with
   | node i ks ih =>
     rw [modT_node]
@@ -162,14 +172,14 @@ theorem removeOne_added_leaf (t t' : Tree) (next parent : NodeId) (a : Atom) (be
     rw [T.kids_node, hinsP]; simp
   -- edits
   have hclear : modT next (fun _ => ([] : List T)) (modT parent (fun l => ins l (newNode t next a did kind)) t.root) = modT parent (fun l => ins l (newNode t next a did kind)) t.root := by
-    rw [modT_congr next (fun _ => []) (fun l => l) _ ?_, modT_id']
+    rw [modT_congr_ar next (fun _ => []) (fun l => l) _ ?_, modT_id_ar]
     intro x hx hxid
     have : findT next (modT parent (fun l => ins l (newNode t next a did kind)) t.root) = some x := (findT_eq_some_iff hN').2 ⟨hx, hxid⟩
     rw [hfindN] at this
     cases this
     exact hnnk.symm
   have hback : modT parent (eraseId next) (modT parent (fun l => ins l (newNode t next a did kind)) t.root) = t.root := by
-    rw [modT_modT_same, modT_congr parent _ (fun l => l) _ ?_, modT_id']
+    rw [modT_modT_same_ar, modT_congr_ar parent _ (fun l => l) _ ?_, modT_id_ar]
     intro x hx hxid
     have hx' : findT parent t.root = some x := (findT_eq_some_iff h.ids).2 ⟨hx, hxid⟩
     rw [hp] at hx'
